@@ -342,8 +342,11 @@ class PeerManager:
                                        (session, peer))
 
             async for task in g:
-                if not task.cancelled():
-                    task.result()
+                # A request that timed out (TaskTimeout is a CancelledError) or was
+                # cancelled by a lost connection leaves its check undone
+                if task.cancelled():
+                    raise ConnectionError('peer verification request timed out or was cancelled')
+                task.result()
 
         # Process reported peers if remote peer is good
         peers = peers_task.result()
